@@ -64,3 +64,21 @@ Theorem C18_writer_can_finish : forall tr s t l,
                 ls_holder s2 = None /\ hd_error (ls_out s1) = Some (Some l, l).
 Proof. exact writer_can_finish. Qed.
 Print Assumptions C18_writer_can_finish.
+
+(* several SimpleLoggers (any thresholds) wrapped at any time over ONE shared log.Logger with any
+   initial prefix, calls one at a time: every call writes exactly the line its own logger alone
+   would write (own label once, message, arguments), and nothing when its level is below that
+   logger's threshold *)
+Theorem C18_shared_logger_own_label : forall p0 ops,
+  sh_run simple_ctor_captures_prefix (sh_init p0) ops = sh_spec [] ops.
+Proof. exact shared_logger_own_label. Qed.
+Print Assumptions C18_shared_logger_own_label.
+
+(* sensitivity: were the constructor to store the log.Logger's prefix of that moment, the second
+   wrapper would label an ERROR record "INFO ERROR " *)
+Theorem C18_shared_capture_doubles_label :
+  nth 3 (sh_run true (sh_init "") capture_trace) None
+    = Some (simple_prefix Info ++ simple_prefix Error ++ format_message "m" [])%string /\
+  nth 3 (sh_run true (sh_init "") capture_trace) None <> nth 3 (sh_spec [] capture_trace) None.
+Proof. exact shared_capture_doubles_label. Qed.
+Print Assumptions C18_shared_capture_doubles_label.
